@@ -6,6 +6,9 @@ import ElfioVerif.Driver.C08
 import ElfioVerif.Driver.C13
 import ElfioVerif.Driver.C11
 import ElfioVerif.Driver.C12
+import ElfioVerif.Driver.C10
+import ElfioVerif.Driver.C09
+import ElfioVerif.Driver.C19
 open ElfioVerif.Drv
 
 def main (args : List String) : IO UInt32 := do
@@ -17,4 +20,7 @@ def main (args : List String) : IO UInt32 := do
   | ["c13"] => mainLoop C13.runCase; return 0
   | ["c11"] => mainLoop C11.runCase; return 0
   | ["c12"] => mainLoop C12.runCase; return 0
+  | ["c10"] => mainLoop C10.runCase; return 0
+  | ["c09"] => mainLoop C09.runCase; return 0
+  | ["c19"] => mainLoop C19.runCase; return 0
   | _ => IO.eprintln "usage: driver <family>"; return 2
